@@ -24,8 +24,10 @@ pub fn flush(addr: VirtAddr) {
 #[inline]
 pub fn flush_all() {
     use crate::registers::control::Cr3;
-    let (frame, flags) = Cr3::read();
-    unsafe { Cr3::write(frame, flags) }
+    // Use the raw accessors: `Cr3::read` keeps only the PWT/PCD flag bits, which would
+    // drop the current PCID (bits 0-11 of CR3 when CR4.PCIDE is set) on the write back.
+    let (frame, value) = Cr3::read_raw();
+    unsafe { Cr3::write_raw(frame, value) }
 }
 
 /// The Invalidate PCID Command to execute.
